@@ -66,8 +66,28 @@ def wrap(ports, dgrams, tail_stop=True):
     return {"ports": ports, "steps": steps}
 
 
+def rerun_any(rp: dict, owns) -> list[dict]:
+    import warnings
+    if "beh" in rp:
+        from .. import replay
+        with warnings.catch_warnings():
+            warnings.simplefilter("ignore")
+            return replay.BridgeReplay(rp["beh"], rp.get("beh_seed", 1)).run()
+    from .. import e2edrive, tlc
+    evs = e2edrive.run_scenario(rp["scenario"])
+    for k, e in enumerate(evs):
+        e["tid"] = 1
+        e["k"] = k
+    v = tlc.validate("Trace_Switcher", [evs], shards=1)
+    return [{"step": b["k"], "action": b["ev"], "what": ",".join(b["why"]), "expected": "device model", "observed": ""} for b in v["bad"]
+            if any(owns(c) for c in b["why"])]
+
+
 class BridgeProp(Prop):
     trace_module = "Trace_Bridge"
+
+    def rerun_behaviour(self, rp):
+        return rerun_any(rp, self.owns)
     base_assumptions = [
         "broadcast layouts in Datagram.tla are the sender's layouts reconstructed from the 16 real broadcasts in "
         "tests/testresources (checked by TLC in MC_Datagram, incl. that a device's default name ends in the last two bytes of "
@@ -96,7 +116,8 @@ def bridge_replay(ctx: Ctx, which: set[str]) -> dict:
     with warnings.catch_warnings():
         warnings.simplefilter("ignore")
         mm = replay.replay_bridge(behs, ctx.seed)
-    mine = [dict(m, trace=[[s["a"], s["p"], s["cls"]] for s in behs[m["behaviour"]][: m["step"] + 1]]) for m in mm
+    mine = [dict(m, beh=behs[m["behaviour"]], beh_seed=ctx.seed + m["behaviour"],
+                 trace=[[s["a"], s["p"], s["cls"]] for s in behs[m["behaviour"]][: m["step"] + 1]]) for m in mm
             if any(m["what"].startswith(w) for w in which)]
     return {"gen": info, "behaviours": len(behs), "steps": sum(len(b) for b in behs), "mismatches": mine}
 
